@@ -145,7 +145,7 @@ def run(ck):
             m = re.fullmatch(r"f(\d+)", vf["name"])
             if m:
                 shapes[int(m.group(1))] = vf
-        a = L.run_bin(os.path.join(pd, "p_llgo"), timeout=300)
+        a = L.run_bin(os.path.join(pd, "p_llgo"), timeout=60)
         b = e2e.run_plain(os.path.join(pd, "p_go"), timeout=300)
         go_runs = parse_runs(b[2])
         ll_runs = parse_runs(a[2])
@@ -175,7 +175,7 @@ def run(ck):
             rr, oo = L.build(pd2, os.path.join(pd2, "p_llgo"), timeout=1500)
             if rr != 0:
                 break
-            a = L.run_bin(os.path.join(pd2, "p_llgo"), timeout=300)
+            a = L.run_bin(os.path.join(pd2, "p_llgo"), timeout=45)
             more = parse_runs(a[2])
             ll_runs = collections.OrderedDict((k, v) for k, v in ll_runs.items() if v["ended"])
             ll_runs.update(more)
